@@ -131,7 +131,7 @@ func Report(t Failer, prop, oracle string, c any, v *Violation) {
 		rec.Known(id)
 		return
 	}
-	if v.Kind == "hang" {
+	if isHang(v) {
 		// every re-evaluation of a hanging case costs the full timeout again: no shrinking, stop at once
 		abandon(prop, oracle, c, v)
 	}
@@ -252,6 +252,11 @@ func Guard(prop, oracle string, c any, budget time.Duration, f func()) (panicked
 	}
 }
 
+// isHang: the violation was observed through a run that did not finish (whatever kind the check gives it).
+func isHang(v *Violation) bool {
+	return v != nil && (strings.Contains(v.Kind, "hang") || strings.Contains(v.Msg, "timedout=true"))
+}
+
 func abandon(prop, oracle string, c any, v *Violation) {
 	if id, ok := MatchKnown(prop, v); ok {
 		stats.Get(prop).Known(id)
@@ -308,6 +313,9 @@ func Minimise(path string, budget int) (string, error) {
 	rp, ok2 := replayers[key]
 	if !ok || !ok2 {
 		return "no shrinker", nil
+	}
+	if isHang(rf.Violation) {
+		return "a hang: not minimised (every evaluation costs the full timeout)", nil
 	}
 	v0, err := rp(rf.Case)
 	if err != nil || v0 == nil {
